@@ -151,14 +151,18 @@ func (l *LocalKMS) Rotate(kt kmsapi.KeyType, keyID string, opts ...kmsapi.KeyOpt
 		return "", nil, fmt.Errorf("rotate: failed to get kms keyest handle: %w", err)
 	}
 
-	err = l.store.Delete(keyID)
-	if err != nil {
-		return "", nil, fmt.Errorf("rotate: failed to delete entry for kid '%s': %w", keyID, err)
-	}
-
+	// The rotated keyset is stored BEFORE the old entry is removed: if the process dies (or the write fails) in
+	// between, the key is still retrievable under its old id instead of being lost.
 	newID, err := l.storeKeySet(updatedKH, kt)
 	if err != nil {
 		return "", nil, fmt.Errorf("rotate: failed to store keySet: %w", err)
+	}
+
+	if newID != keyID {
+		err = l.store.Delete(keyID)
+		if err != nil {
+			return "", nil, fmt.Errorf("rotate: failed to delete entry for kid '%s': %w", keyID, err)
+		}
 	}
 
 	return newID, updatedKH, nil
